@@ -38,11 +38,29 @@ func (w *World) moduleNamedTypes() []*types.Named {
 // Implementers returns the module types (T or *T) whose method set satisfies iface.
 func (w *World) Implementers(iface *types.Interface) []types.Type {
 	var out []types.Type
+	// a type that has every method of the interface only by promotion from an embedded field
+	// behaves as that field's type, which is listed itself
+	ownMethod := func(t types.Type) bool {
+		if iface.NumMethods() == 0 {
+			return true
+		}
+		ms := w.Prog.MethodSets.MethodSet(t)
+		for i := 0; i < iface.NumMethods(); i++ {
+			if sel := ms.Lookup(iface.Method(i).Pkg(), iface.Method(i).Name()); sel != nil && len(sel.Index()) == 1 {
+				return true
+			}
+		}
+		return false
+	}
 	for _, nt := range w.moduleNamedTypes() {
 		if types.Implements(nt, iface) {
-			out = append(out, nt)
+			if ownMethod(nt) {
+				out = append(out, nt)
+			}
 		} else if types.Implements(types.NewPointer(nt), iface) {
-			out = append(out, types.NewPointer(nt))
+			if ownMethod(types.NewPointer(nt)) {
+				out = append(out, types.NewPointer(nt))
+			}
 		}
 	}
 	return out
